@@ -41,6 +41,7 @@ class SimThread(object):
         self.aborted = False
         self.interrupt_at = None    # local step at which to raise SimInterrupt
         self.interrupted = 0
+        self.held_locks = 0         # simulated mutexes currently held
         self.prio = 0
         self.thread = None
         self.ready = threading.Event()
@@ -152,6 +153,7 @@ class Scheduler(object):
     # -- running
     def run(self, wall_timeout=120):
         global _active
+        reset_lib_locks()
         self.strategy = Strategy(self.cfg, len(self.threads))
         for t in self.threads:
             th = threading.Thread(target=self._body, args=(t,), daemon=True)
@@ -251,7 +253,12 @@ class Scheduler(object):
             raise SimAbort()
         if self.on_step is not None:
             self.on_step(self, t)
-        if t.interrupt_at is not None and t.steps >= t.interrupt_at:
+        if t.interrupt_at is not None and t.steps >= t.interrupt_at \
+                and t.held_locks == 0:
+            # (an asynchronous exception is not delivered inside a critical
+            # section: CPython itself cannot guarantee __exit__ runs when a
+            # signal lands between the end of a with-body and the call of
+            # __exit__, so lock-protected code is not required to survive it)
             t.interrupt_at = None
             t.interrupted += 1
             raise SimInterrupt()
@@ -369,6 +376,7 @@ class SimLock(object):
             s.block(t, self)
         self.held = True
         self.owner = t
+        t.held_locks += 1
         s.events.append((t.tid, "got:" + self.name))
         return True
 
@@ -377,6 +385,8 @@ class SimLock(object):
             raise RuntimeError("release unlocked lock")
         s = _active
         t = s.me() if s is not None else None
+        if self.owner is not None and self.owner.held_locks > 0:
+            self.owner.held_locks -= 1
         self.held = False
         self.owner = None
         for w in self.waiters:
@@ -555,6 +565,60 @@ class SimEvent(object):
             while not self.flag:
                 self.cond.wait()
             return True
+
+
+# ---- locks the library itself may create -----------------------------------
+_lib_locks = []
+_patched = {}
+
+
+def patch_threading(lib_src_root):
+    """Make `threading.Lock()` / `threading.RLock()` return simulated locks
+    when (and only when) the caller is library code under `lib_src_root`.
+    The library takes no lock today; a change that adds one (a legitimate way
+    to make a point thread-safe) would otherwise block a real thread on a
+    real mutex held by a thread the scheduler has parked - the simulation
+    would hang instead of exploring.  Everything else (the harness, the
+    standard library) keeps getting real locks."""
+    if _patched:
+        return
+    import os
+    root = os.path.realpath(lib_src_root) + os.sep
+    real_lock, real_rlock = threading.Lock, threading.RLock
+
+    def from_lib():
+        f = sys._getframe(2)
+        fn = f.f_code.co_filename
+        return fn.startswith(root) or os.path.realpath(fn).startswith(root)
+
+    def Lock(*a, **k):
+        if from_lib():
+            l = SimLock()
+            _lib_locks.append(l)
+            return l
+        return real_lock(*a, **k)
+
+    def RLock(*a, **k):
+        if from_lib():
+            l = SimRLock()
+            _lib_locks.append(l)
+            return l
+        return real_rlock(*a, **k)
+    threading.Lock = Lock
+    threading.RLock = RLock
+    _patched.update(lock=real_lock, rlock=real_rlock)
+
+
+def reset_lib_locks():
+    """Forget what an aborted run left behind in long-lived library locks."""
+    for l in _lib_locks:
+        l.held = False
+        l.owner = None
+        l.waiters = []
+        if isinstance(l, SimRLock):
+            l.depth = 0
+    if len(_lib_locks) > 10000:
+        del _lib_locks[:-1000]
 
 
 class ThreadingShim(object):
